@@ -519,6 +519,9 @@ pub struct UvState {
     /// a capability report that replaces the one given at construction (the user removed the
     /// biometric, enrolled one, ...), shared by every clone
     pub capability_now: Option<Option<bool>>,
+    /// the user is only verified when the authenticator asks for verification (a prompt that shows a
+    /// plain "continue" button unless a PIN / biometric is asked for)
+    pub verifies_only_when_asked: bool,
 }
 
 #[derive(Clone)]
@@ -538,7 +541,7 @@ pub struct RecUv {
 impl RecUv {
     pub fn new(log: Arc<Log>, outcome: UvOutcome, verification_enabled: Option<bool>) -> Self {
         RecUv {
-            state: Arc::new(Mutex::new(UvState { outcome, script: vec![], calls: 0, yields: 0, spin: 0, capability_now: None })),
+            state: Arc::new(Mutex::new(UvState { outcome, script: vec![], calls: 0, yields: 0, spin: 0, capability_now: None, verifies_only_when_asked: false })),
             log,
             presence_enabled: true,
             verification_enabled,
@@ -569,6 +572,9 @@ impl RecUv {
     pub fn set_yields(&self, n: usize) {
         self.state.lock().unwrap().yields = n;
     }
+    pub fn set_verifies_only_when_asked(&self, v: bool) {
+        self.state.lock().unwrap().verifies_only_when_asked = v;
+    }
     pub fn set_spin(&self, n: u32) {
         self.state.lock().unwrap().spin = n;
     }
@@ -591,7 +597,12 @@ impl UserValidationMethod for RecUv {
             let mut g = self.state.lock().unwrap();
             let n = g.calls;
             g.calls += 1;
-            let o = g.script.get(n).copied().unwrap_or(g.outcome);
+            let mut o = g.script.get(n).copied().unwrap_or(g.outcome);
+            if g.verifies_only_when_asked {
+                if let UvOutcome::Check { presence: p, verification: v } = o {
+                    o = UvOutcome::Check { presence: p, verification: v && verification };
+                }
+            }
             (o, g.yields, g.spin)
         };
         let shown = credential.map(|c| c.credential_id.to_vec());
